@@ -412,6 +412,11 @@ func (r *renderer) render(v ssa.Value, d int) string {
 			case *ssa.FieldAddr:
 				return r.base(a.X, d+1) + "." + fieldName(a.X.Type(), a.Field)
 			case *ssa.IndexAddr:
+				if r.o.cat {
+					if es := literalElems(a.X); es != nil && r.idx(a.Index, d+1) == "*" {
+						return r.altsOf(es, d)
+					}
+				}
 				return r.base(a.X, d+1) + "[" + r.idx(a.Index, d+1) + "]"
 			case *ssa.Alloc:
 				if sv := singleStore(a); sv != nil {
@@ -431,6 +436,11 @@ func (r *renderer) render(v ssa.Value, d int) string {
 	case *ssa.IndexAddr:
 		return "&" + r.base(x.X, d+1) + "[" + r.idx(x.Index, d+1) + "]"
 	case *ssa.Index:
+		if r.o.cat {
+			if es := literalElems(x.X); es != nil && r.idx(x.Index, d+1) == "*" {
+				return r.altsOf(es, d)
+			}
+		}
 		return r.render(x.X, d+1) + "[" + r.idx(x.Index, d+1) + "]"
 	case *ssa.Lookup:
 		return r.render(x.X, d+1) + "[" + r.render(x.Index, d+1) + "]"
@@ -744,4 +754,48 @@ func structLiteralFields(v ssa.Value) map[string]ssa.Value {
 func isStructType(t types.Type) bool {
 	_, ok := t.Underlying().(*types.Struct)
 	return ok
+}
+
+// literalElems: v is a literal array (or a copy of one): its element values.
+func literalElems(v ssa.Value) []ssa.Value {
+	for i := 0; i < 4; i++ {
+		switch x := v.(type) {
+		case *ssa.Alloc:
+			if es := arrayLiteral(x); es != nil {
+				return es
+			}
+			if sv := singleStore(x); sv != nil {
+				v = sv
+				continue
+			}
+			return nil
+		case *ssa.UnOp:
+			if x.Op == token.MUL {
+				v = x.X
+				continue
+			}
+			return nil
+		default:
+			return nil
+		}
+	}
+	return nil
+}
+
+// altsOf renders "any element of a literal list" as the set of alternatives.
+func (r *renderer) altsOf(es []ssa.Value, d int) string {
+	seen := map[string]bool{}
+	var parts []string
+	for _, e := range es {
+		s := r.render(e, d+1)
+		if !seen[s] {
+			seen[s] = true
+			parts = append(parts, s)
+		}
+	}
+	sort.Strings(parts)
+	if len(parts) == 1 {
+		return parts[0]
+	}
+	return "phi(" + strings.Join(parts, " | ") + ")"
 }
